@@ -70,6 +70,10 @@ class SymRun:
 
 
 def _render(ctx: pyvc.Ctx, v: Any) -> str:
+    if isinstance(v, pyvc.Name):
+        return f"‹{v.ident}›"
+    if isinstance(v, pyvc.SymBool):
+        return f"SymBool({v.t})"
     if isinstance(v, str):
         return ctx.table.show(v)
     if isinstance(v, BaseException):
